@@ -382,8 +382,21 @@ def gen(cs, **opts):
         for i in range(rng.randint(1, 3)):
             tks = rng.sample(tickers, rng.randint(1, ntk))
             st, d = gen_stack(rng, rs, spec, tks, [t for t in tks if t in priced], "c%d_" % i, dict(opts, flows=False), is_child=True)
-            subs.append({"type": "strat", "name": "sub%d" % i, "algos": st, "children": [{"type": "lazy", "name": t} if rng.random() < 0.7 else
-                                                                                         {"type": "sec", "name": t, "mult": rng.choice([1, 1, 10])} for t in tks]})
+            kids_i = [{"type": "lazy", "name": t} if rng.random() < 0.7 else {"type": "sec", "name": t, "mult": rng.choice([1, 1, 10])} for t in tks]
+            if rng.random() < opts.get("deep_p", 0.25):
+                # a strategy of strategies: grandchildren with their own stacks, the mid level allocates among them (and its own tickers)
+                gkids = []
+                for j in range(rng.randint(1, 2)):
+                    gt = rng.sample(tickers, rng.randint(1, ntk))
+                    gst, gd = gen_stack(rng, rs, spec, gt, [t for t in gt if t in priced], "c%d_g%d_" % (i, j), dict(opts, flows=False, pte=False), is_child=True)
+                    gkids.append({"type": "strat", "name": "g%d%d" % (i, j), "algos": gst, "children": [{"type": "lazy", "name": t} for t in gt]})
+                    desc["g%d%d" % (i, j)] = gd
+                gnames = [g["name"] for g in gkids]
+                own = [t for t in tks if t in priced][: rng.randint(0, 1)]
+                st, d = gen_stack(rng, rs, spec, gnames + own, gnames + own, "c%d_m_" % i, dict(opts, flows=False, pte=False, solvers=False), is_child=True)
+                kids_i = gkids + [{"type": "lazy", "name": t} for t in own]
+                d = ["mid"] + d
+            subs.append({"type": "strat", "name": "sub%d" % i, "algos": st, "children": kids_i})
             desc["sub%d" % i] = d
         names = [s["name"] for s in subs]
         extra_tk = rng.sample(priced, min(len(priced), rng.randint(0, 2)))
@@ -435,7 +448,8 @@ def algo_names(spec):
 
 
 def signature(spec):
-    return [sorted(set(algo_names(spec))), spec["desc"].get("nested"), spec["integer"], spec["comm"], spec["desc"].get("bidoffer"), spec["desc"].get("kids")]
+    deep = any(isinstance(v, list) and v and v[0] == "mid" for v in spec["desc"].values())
+    return [sorted(set(algo_names(spec))), spec["desc"].get("nested"), spec["integer"], spec["comm"], spec["desc"].get("bidoffer"), spec["desc"].get("kids"), deep]
 
 
 def sample_of(spec):
